@@ -342,3 +342,24 @@ PROPS["C08"] = {
     ],
     "assumptions": PROPS["C01"]["assumptions"],
 }
+
+PROPS["C15"] = {
+    "lean_modules": ["BurrowVerif.Props.C15"],
+    "props_files": ["BurrowVerif/Props/C15.lean"],
+    "anchors": ["core/internal/notifier/coordinator.go", "core/internal/zookeeper/coordinator.go", "core/internal/helpers/zookeeper.go"],
+    "streams": [{"name": "zkloop", "keys": None, "spec_tags": ["D12"], "trivial": r"^$", "hist_keys": ["gap", "locks", "unlocks"],
+                 "scale": {"quick": 1, "thorough": 6}, "seeds": {"quick": 1, "thorough": 3}}],
+    "rule": ("stream zkloop: the REAL manageEvalLoop and sendEvaluatorRequests (hook: started exactly as Start does) with the REAL zookeeper coordinator's session-event loop, against a scripted fake "
+             "Zookeeper client and lock, in real time (scenarios of 1-4 s, run 16 at a time): 1-3 cycles of 'Lock() fails 0-2 times, succeeds, session expires 200-1250 ms later (StateExpired event), "
+             "reconnects 30-400 ms later (StateConnected)', 1-3 groups, shortest interval 1 s; every seventh scenario delivers the expiry INSIDE the successful Lock() call (the lost wake-up). Observed: "
+             "Lock and Unlock calls and every request on App.EvaluatorChannel with its arrival time; compared with the model's trace: number of Lock/Unlock calls, whether any evaluation was issued more "
+             "than 60 ms after an expiry broadcast and before the next successful Lock (gap), whether the first owned window contains an evaluation, and pacing (no group evaluated twice within 1 s - 30 ms). "
+             "Non-trivial = every scenario."),
+    "trusted": [
+        "partial by nature: the theorems are over the modelled atomic steps of the manager, the request loops and the environment; preemption inside them, the unsynchronised doEvaluations bool, the "
+        "non-exclusive RLock under which LastEval is updated (two concurrent request loops) and real timing are not modelled",
+        "the correspondence runs in real time with 30-60 ms margins around every scripted event; zk lock recipe and session semantics are the fake's (an expiry removes the lock node)",
+        "Unlock() returning an error after an expiry makes Burrow panic by design (coordinator.go:328): modelled (unlockFail -> crashed), not exercised on the implementation",
+    ],
+    "assumptions": [],
+}
